@@ -427,6 +427,7 @@ static const char *setjmp_syms[] = {
 
 static const char *longjmp_syms[] = {
 	"longjmp",
+	"_longjmp",
 	"siglongjmp",
 	"__longjmp_chk",
 };
@@ -443,7 +444,7 @@ static const char *dlsym_syms[] = {
 static const char *flush_syms[] = {
 	"fork",		 "vfork",   "daemon",  "exit",	      "longjmp",      "siglongjmp",
 	"__longjmp_chk", "execl",   "execlp",  "execle",      "execv",	      "execve",
-	"execvp",	 "execvpe", "fexecve", "posix_spawn", "posix_spawnp",
+	"execvp",	 "execvpe", "fexecve", "posix_spawn", "posix_spawnp", "_longjmp",
 };
 
 static const char *except_syms[] = {
